@@ -103,6 +103,12 @@ def extract(root=None, cfg="dev", log=None):
             with open(meta_path) as f:
                 meta = json.load(f)
             meta["cached"] = True
+            # in use: keep it young, so that neither _prune nor a finishing audit of another check evicts it
+            for d_ in (out, os.path.dirname(out)):
+                try:
+                    os.utime(d_)
+                except OSError:
+                    pass
             return out, meta
         if os.path.exists(out):
             shutil.rmtree(out)
